@@ -7,7 +7,7 @@ PROPERTY = 'C17'
 FUNCTIONS_ENCODED = ['pgradd.RDkitWrapper.GenRxnNet:GenerateRxnNet']
 BOUNDS = {
     'quick': 'n = 3 abstract species, 1 unimolecular rule with <= 2 products per species (targets symbolic), symbolic '
-             'over-valence flag per species, 1 seed; n = 2 with 2 rules (1 product each) and 2 seeds',
+             'over-valence flag per species, 1 seed; n = 2 with 2 rules (1 product each) and 2 seeds; n = 3 with 2 rules (1 product each) and 1 seed',
     'thorough': 'additionally n = 4 species, 1 rule, 2 products; n = 2 and n = 3 species, 2 rules, 2 seeds, 2 products',
 }
 STUBS = ['fake Chem/PeriodicTable in GenRxnNet: species are abstract ids; identity = mutual substructure test on ids; '
@@ -180,11 +180,22 @@ def _split(name, base, n, to):
     return obs
 
 
+def _split1(name, base, n, to):
+    obs = []
+    for a in range(n + 1):
+        p = dict(base)
+        p['fix'] = {'r0_s0_p0': a}
+        obs.append(dict(name='%s_fix%d' % (name, a), func='h_closure', param=p, timeout=to))
+    return obs
+
+
 def obligations(tier, seed):
     q = tier == 'quick'
     to = 200 if q else 3000
     obs = _split('closure_n3_r1', dict(n=3, rules=1, seeds=1, width=2), 3, to)
     obs.append(dict(name='closure_n2_r2_s2_w1', func='h_closure', param=dict(n=2, rules=2, seeds=2, width=1), timeout=to))
+    # two rules, one seed: the same new species can be produced by both rules from one reactant
+    obs += _split1('closure_n3_r2_s1_w1', dict(n=3, rules=2, seeds=1, width=1), 3, to)
     if not q:
         obs += _split('closure_n3_r2_s2_w1', dict(n=3, rules=2, seeds=2, width=1), 3, to)
         obs += _split('closure_n2_r2_s2', dict(n=2, rules=2, seeds=2, width=2), 2, to)
